@@ -16,6 +16,7 @@ GOLDEN = {
     "tok": [b"SELECT `a`, \"b\" FROM [t] WHERE x = 'it''s' AND y = $1 -- c", b"'a\\'b' \"q\\\"\" `x``y` ? ?? $10 1.5e3", b"", b"a'"],
     "esc": [b"it's", b"a\\b\n\r\t\x00\x1a\"", b"", b"%_\\%"],
     "lit": [b"\x00\x00it's", b"\x01\x03a\\b", b"\x02\x05\"q\" $1 ?", b"\x00\x07\x00\n\x1a"],
+    "tmpl": [b"\x01\x02\x01\x00\x01\x02\x0c\x00\x02\x04", b"\x00\x00\x00\x03\x02\x00\x05\x04\x0c", b"\x02\x01\x00\x1b\x03\x06\x07\x01\x04\x06", b"\x01\x00\x04\x17\x01\x02\x04\x0f\x01"],
     "ident": [b"\x00\x00a`b", b"\x01\x04a\"b.c", b"\x02\x09[x]\\", b"\x01\x10 sp ace"],
 }
 
